@@ -67,11 +67,12 @@ PROPS = {
                           'arithmetic (loop invariant on the real loops); ctrsbox_geometry returns one of two such steps; in Controller.trust_region_step the regularised step handed back has '
                           'h(x) - m(d) >= 0 because the zero step is substituted otherwise and m(0) == h(x) (contract of model_value). ball_step (last move of the bound-constrained '
                           'geometry step): alpha >= 0 and, unless ||g|| < 1e-14, ||x0 + alpha*g|| == Delta exactly in real arithmetic (nonlinear obligation on the real body) - a necessary '
-                          'piece of the optimality clause. The convex step solvers are entered only with a finite model gradient and Hessian (call-site obligation).',
+                          'piece of the optimality clause. trsbox_geometry / ctrsbox_geometry: the two candidates are the linear problem for g and for -g (on the box shifted to xbase), and the one with the larger '
+                          '|c + g.s| is returned. The convex step solvers are entered only with a finite model gradient and Hessian (call-site obligation).',
             'level_note': 'Domain V: reals, opaque vectors with vector-space / norm axioms, exact projector contract for caller-supplied projections (A-callback). NOT decided: box/ball feasibility to 1e-12 '
                           'and GLOBAL OPTIMALITY to 1e-6 of trsbox_geometry / trsbox_linear (active-set loop, nonlinear invariants over symbolic dimension) and the (1+1e-8) rounding slack. '
                           'A-params sub-range: func_tol.max_iters >= 1 (0 is accepted by the parameter check and leaves a local unbound in ctrsbox_sfista).',
-            'not_decided': ['trsbox_geometry: box/ball feasibility to 1e-12 and global optimality to 1e-6', 'floating-point slack (1+1e-8)']},
+            'not_decided': ['trsbox_linear (active-set loop): box/ball feasibility to 1e-12 and optimality of each candidate to 1e-6', 'floating-point slack (1+1e-8)']},
     'C14': {'bundles': ['box', 'ledger', 'coord', 'dirlen'], 'level': 'proof',
             'level_text': 'Partial claim: (1) both random-direction generators clip every returned direction into [lower, upper] exactly (binary64, loop invariant over the final clipping loop '
                           'with a ghost column index: an off-by-one in that loop is refuted); (2) every initial point that is evaluated is produced by as_absolute_coordinates and therefore lies '
